@@ -20,7 +20,7 @@
 //   dec                                    -> <res>
 //   key                                    -> <encoded private key> <ciphertext> <res>
 //   file                                   -> <encoded private key> <ciphertext in the file> <res>
-//   <res> = ok:<hex of plaintext / of Encode() of the decoded key> | err | panic
+//   <res> = ok:<hex of plaintext> | ok:<type byte 01 ed/02 sr/03 secp><Encode() of the decoded key> | err | panic
 package keystore
 
 import (
@@ -86,8 +86,23 @@ func c37DecKey(data, pw []byte, scheme string) string {
 		if err != nil {
 			return nil, err
 		}
-		return k.Encode(), nil
+		return c37Typed(k), nil
 	})
+}
+
+// c37Typed is Encode() of the key prefixed with a byte naming its Go type (01 ed25519,
+// 02 sr25519, 03 secp256k1, 00 anything else).
+func c37Typed(k crypto.PrivateKey) []byte {
+	t := byte(0)
+	switch k.(type) {
+	case *ed25519.PrivateKey:
+		t = 1
+	case *sr25519.PrivateKey:
+		t = 2
+	case *secp256k1.PrivateKey:
+		t = 3
+	}
+	return append([]byte{t}, k.Encode()...)
 }
 
 func c37NewKey(scheme string, b []byte) (crypto.PrivateKey, error) {
@@ -104,15 +119,15 @@ func c37NewKey(scheme string, b []byte) (crypto.PrivateKey, error) {
 var c37SecpN = vu.UnHex("fffffffffffffffffffffffffffffffebaaedce6af48a03bbfd25e8cd0364141")
 
 func c37Password(r *vu.RNG) []byte {
-	switch r.Intn(8) {
+	switch r.Intn(12) {
 	case 0:
 		return []byte{}
-	case 1:
+	case 1, 8, 9:
 		return []byte("noot")
 	case 2: // unicode
 		return []byte([]string{"пароль", "密码🔑", "pässwörd\u0000x", "‮ "}[r.Intn(4)])
 	case 3: // long: crosses BLAKE2b block boundaries
-		return r.Bytes([]int{127, 128, 129, 255, 256, 257, 1000}[r.Intn(7)])
+		return r.Bytes([]int{127, 128, 129, 255, 256, 257}[r.Intn(6)])
 	case 4:
 		return r.Bytes(1)
 	default:
@@ -256,7 +271,11 @@ func c37Gen(r *vu.RNG, n int, emit func(string)) {
 			}
 			emit(fmt.Sprintf("trunc %s %s %s %s", h(nonce), h(msg), h(pw), vu.X(uint64(l))))
 		case 12:
-			emit(fmt.Sprintf("ext %s %s %s %s", h(nonce), h(msg), h(pw), h(r.Bytes(1+r.Intn(20)))))
+			extra := r.Bytes(1 + r.Intn(20))
+			if r.Chance(1, 2) { // what a text editor or a copy would add
+				extra = [][]byte{{'\n'}, {0}, {' '}, {'\r', '\n'}, {'\n', '\n'}, {0, 0, 0, 0}}[r.Intn(6)]
+			}
+			emit(fmt.Sprintf("ext %s %s %s %s", h(nonce), h(msg), h(pw), h(extra)))
 		case 13, 14:
 			pw2 := c37Password(r)
 			if r.Chance(1, 2) && len(pw) > 0 { // near miss
@@ -392,7 +411,7 @@ func c37Run(in string) string {
 			if err != nil {
 				return nil, err
 			}
-			return k.Encode(), nil
+			return c37Typed(k), nil
 		})
 		return vu.Hex(pk.Encode()) + " " + vu.Hex(ks.Ciphertext) + " " + res
 	}
